@@ -656,7 +656,8 @@ class Group(object):
     def get_converged_condition(self):
         if self.has_subgroups:
             code = [g.get_converged_condition() for g in self.equations]
-            return ' & '.join(code)
+            # a sub-group without equations has nothing to converge.
+            return ' & '.join(c for c in code if c)
         else:
             code = []
             for equation in self.equations:
